@@ -39,6 +39,7 @@ type Engine struct {
 	verbose       bool
 	pin           map[string]uint64
 	pinCtl        []int
+	randSeed      uint64
 }
 
 func (e *Engine) skipInit(path string) bool {
@@ -375,6 +376,7 @@ func main() {
 	verbose := flag.Bool("v", false, "verbose")
 	prefixS := flag.String("prefix", "", "run a single path with this decision prefix (comma separated)")
 	paramS := flag.String("params", "", "name=int,... harness parameters")
+	validateN := flag.Int("validate", 0, "translator validation: concrete runs for seeds 1..N with pseudo-random inputs")
 	pinFile := flag.String("pin", "", "concrete replay: JSON {model, picks}; inputs pinned, control decisions followed")
 	flag.Parse()
 
@@ -449,6 +451,68 @@ func main() {
 				e.params[ps[0]] = v
 			}
 		}
+	}
+	if *validateN > 0 {
+		// translator validation: run each harness concretely for seeds 1..N with pseudo-random inputs and print
+		// what happened (compared by bin/vcheck with the native build's run on the same seeds)
+		type vres struct {
+			Func     string   `json:"func"`
+			Seed     int      `json:"seed"`
+			Status   string   `json:"status"`
+			Failures []string `json:"failures"`
+			Observes []string `json:"observes"`
+			Reached  []string `json:"reached"`
+		}
+		var out []vres
+		sol, err := StartSolver(e.mainSolver, e.feasTimeoutMs)
+		if err != nil {
+			fmt.Fprintln(os.Stderr, err)
+			os.Exit(2)
+		}
+		for _, run := range strings.Split(*fn, ";") {
+			parts := strings.SplitN(run, ":", 2)
+			e.harness = hp.Func(parts[0])
+			if e.harness == nil {
+				fmt.Fprintln(os.Stderr, "harness function not found:", parts[0])
+				os.Exit(2)
+			}
+			e.params = map[string]int{}
+			if len(parts) > 1 {
+				for _, kv := range strings.Split(parts[1], ",") {
+					if ps := strings.SplitN(kv, "=", 2); len(ps) == 2 {
+						var v int
+						fmt.Sscanf(ps[1], "%d", &v)
+						e.params[ps[0]] = v
+					}
+				}
+			}
+			for s := 1; s <= *validateN; s++ {
+				e.pin = map[string]uint64{}
+				e.pinCtl = nil
+				e.randSeed = uint64(s)
+				res := e.runPath(sol, nil)
+				if sol.dead {
+					sol.Close()
+					sol, _ = StartSolver(e.mainSolver, e.feasTimeoutMs)
+				}
+				r := vres{Func: parts[0], Seed: s, Status: res.Status, Observes: res.Observes}
+				if res.Status == "unsupported" || res.Status == "budget" {
+					r.Status = res.Status + ": " + res.Msg
+				}
+				for _, v := range res.Violations {
+					r.Failures = append(r.Failures, v.Msg)
+				}
+				for l := range res.Reached {
+					r.Reached = append(r.Reached, l)
+				}
+				sort.Strings(r.Reached)
+				out = append(out, r)
+			}
+		}
+		sol.Close()
+		b, _ := json.Marshal(out)
+		fmt.Println(string(b))
+		return
 	}
 	if *pinFile != "" || *prefixS != "" || os.Getenv("GOSYM_SINGLE") != "" {
 		var prefix []int
